@@ -93,7 +93,9 @@ func (c *randCtx) typ(depth int) (reflect.Type, string) {
 }
 
 func (c *randCtx) share(t reflect.Type) (reflect.Value, bool) {
-	if c.ptrOnly && t.Kind() != reflect.Ptr {
+	if c.ptrOnly && (t.Kind() != reflect.Ptr || t.Elem().Kind() == reflect.Interface) {
+		// (a *interface{} is transparent to the reference table: what it shares is what the interface{} holds -
+		// a map or slice held by value there is shared by value)
 		return reflect.Value{}, false
 	}
 	if p := c.pool[t]; len(p) > 0 && c.r.Intn(4) == 0 {
